@@ -44,7 +44,9 @@ AddReported(s, r) ==
         sp == SpentInDb(s, r.t, r.n) IN
     \* confirmations belong to the transaction: every known output of transaction r.t takes the reported count
     [s EXCEPT !.coins = {[c EXCEPT !.conf = IF c.t = r.t THEN r.conf ELSE @] : c \in (@ \ old)}
-                         \cup {[t |-> r.t, n |-> r.n, v |-> r.v, key |-> r.key, conf |-> r.conf, spent |-> sp]}]
+                         \cup {[t |-> r.t, n |-> r.n, v |-> r.v, key |-> r.key, conf |-> r.conf, spent |-> sp]},
+              \* ... also a transaction the wallet stored itself (its change output reported as confirmed)
+              !.txs = {IF y.t = r.t THEN [y EXCEPT !.conf = r.conf] ELSE y : y \in @}]
 RECURSIVE AddAll(_, _, _)
 AddAll(s, rep, i) == IF i > Len(rep) THEN s ELSE AddAll(AddReported(s, rep[i]), rep, i + 1)
 \* a full update: the report is the truth - everything not reported is spent, and an output the wallet has itself
@@ -62,7 +64,7 @@ UtxosUpdateA(s, rep, rescan, a) ==
 \* confirmations; a transaction the wallet already stores (its own, now mined) only has its confirmations refreshed.
 ApplyTx(s, r) ==
     LET inset == {<<r.ins[i].t, r.ins[i].n>> : i \in 1..Len(r.ins)}
-        s1 == [s EXCEPT !.txs = {y \in @ : y.t # r.t} \cup {[t |-> r.t, ins |-> inset]}]
+        s1 == [s EXCEPT !.txs = {y \in @ : y.t # r.t} \cup {[t |-> r.t, ins |-> inset, conf |-> r.conf]}]
         marked == {IF <<c.t, c.n>> \in inset THEN [c EXCEPT !.spent = TRUE] ELSE c : c \in s.coins}
         Listed(c) == c.t = r.t /\ \E i \in 1..Len(r.outs) : r.outs[i].n = c.n
         news == {[t |-> r.t, n |-> r.outs[i].n, v |-> r.outs[i].v, key |-> r.outs[i].key, conf |-> r.conf,
@@ -77,7 +79,9 @@ TxsUpdate(s, rep) == TxsUpdateFrom(s, rep, 1)
 \* (confs: sequence of [t, conf], the chain as it is now)
 Refresh(s, confs) ==
     [s EXCEPT !.coins = {IF c.conf > 0 /\ \E i \in 1..Len(confs) : confs[i].t = c.t
-                         THEN [c EXCEPT !.conf = confs[CHOOSE i \in 1..Len(confs) : confs[i].t = c.t].conf] ELSE c : c \in @}]
+                         THEN [c EXCEPT !.conf = confs[CHOOSE i \in 1..Len(confs) : confs[i].t = c.t].conf] ELSE c : c \in @},
+              !.txs = {IF y.conf > 0 /\ \E i \in 1..Len(confs) : confs[i].t = y.t
+                       THEN [y EXCEPT !.conf = confs[CHOOSE i \in 1..Len(confs) : confs[i].t = y.t].conf] ELSE y : y \in @}]
 
 \* another wallet holding the same keys in the same database broadcasts a transaction: the outputs it spends are spent for
 \* this wallet too, but the transaction is not one this wallet stores (a later full report may list them again)
@@ -140,7 +144,7 @@ Broadcast(s, x, tnum) ==
     [s EXCEPT !.coins = {IF \E i \in 1..Len(x.ins) : x.ins[i].t = c.t /\ x.ins[i].n = c.n THEN [c EXCEPT !.spent = TRUE] ELSE c : c \in @}
                           \cup {[t |-> tnum, n |-> i - 1, v |-> x.outs[i].v, key |-> x.outs[i].key, conf |-> 0, spent |-> FALSE]
                                 : i \in {j \in 1..Len(x.outs) : x.outs[j].key # 0}},
-              !.txs = @ \cup {[t |-> tnum, ins |-> {<<x.ins[i].t, x.ins[i].n>> : i \in 1..Len(x.ins)}]}]
+              !.txs = @ \cup {[t |-> tnum, ins |-> {<<x.ins[i].t, x.ins[i].n>> : i \in 1..Len(x.ins)}, conf |-> 0]}]
 \* deleting a transaction from the wallet database: its outputs disappear; if it is a transaction the wallet stored with
 \* its inputs (a sent transaction), the outputs it spent are unspent again.  Deleting a funding transaction leaves the
 \* stored transactions that spent its outputs in place: such an output, reported again, is still spent (AddReported).
@@ -150,4 +154,18 @@ Delete(s, tnum) ==
          [s EXCEPT !.coins = {IF <<c.t, c.n>> \in x.ins THEN [c EXCEPT !.spent = FALSE] ELSE c : c \in {d \in @ : d.t # tnum}},
                    !.txs = @ \ {x}]
     ELSE [s EXCEPT !.coins = {d \in @ : d.t # tnum}]
+\* pushing a transaction again that the wallet stores already: what the wallet has learnt about the transaction itself -
+\* its confirmations - stays, and so does every other transaction's output.  Its own outputs are written again as the
+\* object knows them (store(): "it stays spent" if a stored transaction spends it, else the source's knowledge - unspent
+\* for a transaction made by this wallet).  Pushing one the wallet does not store (any more) is a broadcast.
+Resend(s, x, tnum) ==
+    IF \E y \in s.txs : y.t = tnum
+    THEN [s EXCEPT !.coins = {IF c.t = tnum THEN [c EXCEPT !.spent = SpentInDb(s, tnum, c.n)] ELSE c : c \in @}]
+    ELSE Broadcast(s, x, tnum)
+\* transactions_remove_unconfirmed(): "removes all unconfirmed transactions from this wallet and updates related
+\* transactions / utxos" - every transaction known with 0 confirmations is deleted (Delete), received or sent
+Unconfirmed(s) == {y.t : y \in {z \in s.txs : z.conf = 0}} \cup {c.t : c \in {d \in s.coins : d.conf = 0}}
+RECURSIVE DeleteAll(_, _)
+DeleteAll(s, T) == IF T = {} THEN s ELSE LET t == CHOOSE x \in T : \A y \in T : x <= y IN DeleteAll(Delete(s, t), T \ {t})
+RemoveUnconfirmed(s) == DeleteAll(s, Unconfirmed(s))
 =============================================================================
